@@ -13,7 +13,7 @@ import (
 // Features switch block kinds on.
 type Features struct {
 	Xor, And, Or, Loop, CondFlow, Sub, NoDefault, EndInBranch bool
-	MaxDepth, MaxSize, MaxBranch                              int
+	MaxDepth, MaxSize, MaxBranch, SubWeight                   int
 }
 
 type G struct {
@@ -90,6 +90,9 @@ func (g *G) block(scope string, depth, size int, noTerm bool) (in, out string) {
 	}
 	if g.f.Sub {
 		kinds = append(kinds, "sub")
+		for i := 0; i < g.f.SubWeight; i++ {
+			kinds = append(kinds, "sub")
+		}
 	}
 	switch kinds[g.r.Intn(len(kinds))] {
 	case "seq":
